@@ -271,6 +271,8 @@ def run_combo(ctx, idx, A, op, Bq, tier, matrix=None):
         # a plain zero next to a quantity: no kind is dictated for number +- quantity, whatever the number
         pairs.append((0.0, vbs[0]) if ka in NUM else (vas[0], 0.0))
     if op in '+-' and ka not in NUM and kb not in NUM:
+        if SI.SIGN.get(ka) != '>0':
+            pairs.append((0.0, vbs[0]))           # a left operand of exactly zero
         pairs.append((5e-13, 1e-13))          # magnitudes next to the library's comparison tolerance: arithmetic has none
         pairs.append((vas[1], vbs[1] * 1e3))
         pairs.append((vas[0], vas[0]))
